@@ -54,7 +54,7 @@ def batches(tier, seed):
     # registry handles (enumerated part ignores the seed)
     ne = 16 if tier == "quick" else 32
     b += [("handles-enum/%d" % i, ("handles_enum", (i, ne, tier != "quick"))) for i in range(ne)]
-    nr, nh, ln = (16, 12, 14) if tier == "quick" else (64, 60, 40)
+    nr, nh, ln = (16, 12, 14) if tier == "quick" else (64, 40, 36)
     b += [("handles-rand/%d" % i, ("handles_rand", (seed, i, nh, ln, tier != "quick"))) for i in range(nr)]
     return b
 
